@@ -83,38 +83,6 @@ func runSeed(seed uint64, i int) uint64 {
 
 var progress, curRun atomic.Int64
 
-// spinningInSUT looks through a goroutine dump for a goroutine that is running
-// or runnable (not blocked) and has a frame of gldap itself (not of the hook
-// package) on its stack, above which there is no simulator frame; it returns
-// the innermost such function.
-func spinningInSUT(dump string) string {
-	for _, g := range strings.Split(dump, "\n\n") {
-		lines := strings.Split(g, "\n")
-		if len(lines) < 2 || !(strings.Contains(lines[0], "[running") || strings.Contains(lines[0], "[runnable")) {
-			continue
-		}
-		for i := 1; i+1 < len(lines); i += 2 {
-			fn := lines[i]
-			if strings.HasPrefix(fn, "runtime.") || strings.HasPrefix(fn, "runtime/") {
-				continue
-			}
-			if strings.Contains(fn, "/simrt.") || strings.HasPrefix(fn, "verifsim/") || strings.HasPrefix(fn, "testing") {
-				break // the simulator or the harness is on top: not gldap's spin
-			}
-			if strings.HasPrefix(fn, "github.com/jimlambrt/gldap") {
-				if k := strings.LastIndex(fn, "("); k > 0 {
-					fn = fn[:k]
-				}
-				return strings.TrimPrefix(fn, "github.com/jimlambrt/")
-			}
-			// a library frame (bufio, asn1-ber, ...) called from gldap: keep looking down
-		}
-	}
-	return ""
-}
-
-const simrtRace = simrt.RaceBuild
-
 func TestWorker(t *testing.T) {
 	raw := os.Getenv("VERIF_WORKER")
 	if raw == "" {
@@ -134,12 +102,12 @@ func TestWorker(t *testing.T) {
 		b, _ := json.Marshal(r)
 		out.Write(append(b, '\n'))
 	}
-	// watchdog outside any bubble. A run that makes no progress for 20 s of
-	// wall-clock time is examined: if a goroutine is RUNNING (not blocked)
-	// inside gldap's own code, gldap is spinning without ever reaching a yield
-	// point (a livelock: e.g. a read loop that keeps going after EOF), which is
-	// reported as a violation of the liveness property under check; anything
-	// else is tool trouble (exit 3), never a violation.
+	// watchdog outside any bubble: a run that makes no progress for 90 s of
+	// wall-clock time is tool trouble (exit 3), never a violation. (A verdict
+	// "gldap spins without reaching a yield point" was tried here and taken
+	// out again: on a loaded machine a healthy worker can be starved for that
+	// long, and the verdict then was a false alarm. Spinning that does reach
+	// yield points is judged deterministically at the step cap instead.)
 	go func() {
 		last, lastT := int64(-1), time.Now()
 		for {
@@ -149,24 +117,10 @@ func TestWorker(t *testing.T) {
 				last, lastT = p, time.Now()
 				continue
 			}
-			if time.Since(lastT) > 20*time.Second {
+			if time.Since(lastT) > 90*time.Second {
 				buf := make([]byte, 4<<20)
 				n := runtime.Stack(buf, true)
-				dump := string(buf[:n])
-				if fn := spinningInSUT(dump); fn != "" {
-					prop := cfg.Prop
-					switch prop {
-					case "C02", "C07", "C08", "C11", "C12":
-					default:
-						prop = "C08"
-					}
-					v := Violation{Property: prop, Rule: "livelock", Key: "goroutine-spins-in " + fn,
-						Detail: "a goroutine of gldap ran for 20 s of wall-clock time without reaching any yield point (lock, I/O, goroutine start): it is spinning in " + fn + "; the connection it serves is never closed and Stop can never return"}
-					emit(&RunResult{Type: "run", I: int(curRun.Load()), Viol: []Violation{v}})
-					fmt.Fprintf(os.Stderr, "worker: LIVELOCK in %s\n%s\n", fn, dump)
-					os.Exit(4)
-				}
-				fmt.Fprintf(os.Stderr, "worker: WATCHDOG no progress for 20s\n%s\n", dump)
+				fmt.Fprintf(os.Stderr, "worker: WATCHDOG no progress for 90s (run %d)\n%s\n", curRun.Load(), buf[:n])
 				os.Exit(3)
 			}
 		}
